@@ -20,19 +20,16 @@ theorem del_inner_nil {n n' : Names} (h : n.inner = []) (x : String) (hd : n.del
     n'.inner = [] ∧ (∀ y, y ≠ x → n'.glob.contains y = n.glob.contains y) := by
   unfold Names.del at hd
   rw [h] at hd
-  simp only at hd
-  split at hd
-  · simp only [Except.ok.injEq] at hd
-    subst hd
-    refine ⟨rfl, ?_⟩
-    intro y hy
-    simp only
-    have : (y ∈ n.glob.erase x) ↔ y ∈ n.glob := List.mem_erase_of_ne hy
-    by_cases hm : y ∈ n.glob
-    · simp [hm, this.mpr hm]
-    · have h2 : y ∉ n.glob.erase x := fun hc => hm (this.mp hc)
-      simp [hm, h2]
-  · simp at hd
+  simp only [Except.ok.injEq] at hd
+  subst hd
+  refine ⟨rfl, ?_⟩
+  intro y hy
+  simp only
+  have : (y ∈ n.glob.erase x) ↔ y ∈ n.glob := List.mem_erase_of_ne hy
+  by_cases hm : y ∈ n.glob
+  · simp [hm, this.mpr hm]
+  · have h2 : y ∉ n.glob.erase x := fun hc => hm (this.mp hc)
+    simp [hm, h2]
 
 /-- the names after an assignment statement `x = e` at the top level -/
 theorem onAssign_top {n n0 : Names} {x : String} {e : Js} (hin : n.inner = []) (h0 : onAssign n x e = .ok n0) :
